@@ -246,6 +246,7 @@ fn emit_fn(
     block: &syn::Block,
     whole: Span,
     impl_header: Option<(usize, usize)>,
+    impl_extra: &str,
 ) {
     let mut v = FnVisitor { src, closures: vec![], pending_let: None, panics: vec![], loops: vec![] };
     v.visit_block(block);
@@ -296,8 +297,8 @@ fn emit_fn(
     )
     .unwrap();
     match impl_header {
-        Some((a, b)) => write!(out.s, "\"impl_header\":\"{}\",", esc(&src.text[a..b])).unwrap(),
-        None => out.s.push_str("\"impl_header\":null,"),
+        Some((a, b)) => write!(out.s, "\"impl_header\":\"{}\",\"impl_extra\":\"{}\",", esc(&src.text[a..b]), esc(impl_extra)).unwrap(),
+        None => out.s.push_str("\"impl_header\":null,\"impl_extra\":\"\","),
     }
     out.s.push_str("\"closures\":[");
     for (i, c) in v.closures.iter().enumerate() {
@@ -366,7 +367,7 @@ fn walk_items(out: &mut Out, src: &Src, file: &str, items: &[syn::Item], prefix:
         match it {
             syn::Item::Fn(f) => {
                 let name = format!("{}{}", prefix, f.sig.ident);
-                emit_fn(out, src, file, &name, "fn", &f.attrs, &f.vis, &f.sig, &f.block, f.span(), None);
+                emit_fn(out, src, file, &name, "fn", &f.attrs, &f.vis, &f.sig, &f.block, f.span(), None, "");
             }
             syn::Item::Struct(s) => emit_plain(out, src, file, &format!("{}{}", prefix, s.ident), "struct", &s.attrs, &s.vis, s.span()),
             syn::Item::Enum(s) => emit_plain(out, src, file, &format!("{}{}", prefix, s.ident), "enum", &s.attrs, &s.vis, s.span()),
@@ -380,13 +381,23 @@ fn walk_items(out: &mut Out, src: &Src, file: &str, items: &[syn::Item], prefix:
                 };
                 emit_plain(out, src, file, &format!("{}{}", prefix, impl_name), "impl", &im.attrs, &syn::Visibility::Inherited, im.span());
                 let hdr = (src.start(im.span()), src.start(im.brace_token.span.open()));
+                let mut extra = String::new();
+                for ii in &im.items {
+                    match ii {
+                        syn::ImplItem::Fn(_) => {}
+                        other => {
+                            extra.push_str(&src.text[src.start(other.span())..src.end(other.span())]);
+                            extra.push('\n');
+                        }
+                    }
+                }
                 for ii in &im.items {
                     if let syn::ImplItem::Fn(m) = ii {
                         let name = match &im.trait_ {
                             Some((_, path, _)) => format!("{}<{} as {}>::{}", prefix, norm(im.self_ty.to_token_stream()), norm(path.to_token_stream()), m.sig.ident),
                             None => format!("{}{}::{}", prefix, self_name, m.sig.ident),
                         };
-                        emit_fn(out, src, file, &name, "method", &m.attrs, &m.vis, &m.sig, &m.block, m.span(), Some(hdr));
+                        emit_fn(out, src, file, &name, "method", &m.attrs, &m.vis, &m.sig, &m.block, m.span(), Some(hdr), &extra);
                     }
                 }
             }
